@@ -213,6 +213,19 @@ func applyInput(kv map[string]string) {
 	if t, err := parseTerm(kv["props"]); err == nil && t.name == "m" {
 		for i := 0; i+1 < len(t.args); i += 2 {
 			f := t.args[i+1]
+			if f.name == "m" {
+				// older corpus lines give a properties file as a key/value map: m(k,s(v),...)
+				var lines []string
+				for j := 0; j+1 < len(f.args); j += 2 {
+					v := ""
+					if len(f.args[j+1].args) == 1 {
+						v = f.args[j+1].args[0].name
+					}
+					lines = append(lines, f.args[j].name+"="+v)
+				}
+				ensurePropFile(t.args[i].name, lines)
+				continue
+			}
 			if f.name != "l" {
 				continue
 			}
